@@ -19,7 +19,7 @@
     beyond the no-dead-lock step. *)
 From stdpp Require Import list.
 From Coq Require Import ZArith.
-From PV Require Import Graph System Runner proofs.GraphProps proofs.BuildProps proofs.KahnProps proofs.ProgressProps proofs.SchedProps proofs.OnceProps proofs.StageProps proofs.VerdictProps.
+From PV Require Import Graph System Runner proofs.GraphProps proofs.BuildProps proofs.KahnProps proofs.ProgressProps proofs.SchedProps proofs.OnceProps proofs.StageProps proofs.VerdictProps proofs.SuccessPathProps.
 
 (** over every history: the number of times task [n] of job [id] began executing is at most one *)
 Theorem C02_at_most_once : ∀ s id n, reach s → (began (st_ghost s) id n ≤ 1)%nat.
@@ -78,6 +78,18 @@ Theorem C02_no_deadlock : ∀ ts sc j,
        (check_status sc j n = (true, false) ∨ check_status sc j n = (false, true)).
 Proof. exact acyclic_job_no_deadlock. Qed.
 
+(** ... and as long as nothing has failed or been canceled that stage is launched, never canceled: with tasks that succeed the
+    number of waiting stages goes down to zero ("every acyclic graph can run to completion", decision level) *)
+Theorem C02_success_path_progress : ∀ ts sc j,
+  NoDup (map fst ts) → deps_closed ts → acyclic ts →
+  job_graph j = sort_tasks ts →
+  map fst (sc_stages sc) = map jt_name (j_tasks j) →
+  (∃ n, stage_status sc n = Some Waiting) →
+  (∀ n, stage_status sc n ≠ Some Running) →
+  (∀ n, stage_status sc n ≠ Some Error ∧ stage_status sc n ≠ Some Canceled) →
+  ∃ n, stage_status sc n = Some Waiting ∧ check_status sc j n = (true, false).
+Proof. exact success_path_progress. Qed.
+
 Theorem C02_launch_only_when_deps_satisfied_partial : ∀ s id n s' j sc,
   do_visit s id n = Some s' → get_job s id = Some j → j_sched j = Some sc →
   ∃ sc', sched_of s' id = Some sc' ∧ sc_entry sc' = sc_entry sc ++ (if launches sc j n then [n] else [])
@@ -127,6 +139,7 @@ Print Assumptions C02_ranks_respect_dependencies.
 Print Assumptions C02_job_tasks_topological.
 Print Assumptions C02_new_job_accepted_iff_acyclic.
 Print Assumptions C02_no_deadlock.
+Print Assumptions C02_success_path_progress.
 Print Assumptions C02_launch_only_when_deps_satisfied_partial.
 Print Assumptions C02_failed_dependency_blocks.
 Print Assumptions C02_cyclic_job_harmless.
